@@ -429,7 +429,7 @@ func (vc *valCluster) put(path, key string, v interface{}) error {
 	if err != nil {
 		return err
 	}
-	defer p.Close()
+	defer p.Discard()
 	f, err := p.Put(vc.ctx, key, v)
 	if err != nil {
 		return err
@@ -452,7 +452,7 @@ func (vc *valCluster) get(path, key string) (*olric.GetResponse, error) {
 	if err != nil {
 		return nil, err
 	}
-	defer p.Close()
+	defer p.Discard()
 	f := p.Get(vc.ctx, key)
 	if err := p.Exec(vc.ctx); err != nil {
 		return nil, err
